@@ -81,7 +81,7 @@ def jobs(pid, tier):
                     vrt('C09', [r'q_p1_c2_.*', r'q_p2_c1_(block|coro)', r'lq_l1_p2_.*', r'lq_l1_unblock_.*', r'l?q_observer_.*'], bound=2, workers=4, **R),
                     vrt('C11', [r'pool_w[12]_(coawait|runfn|runfnbig|detached|detachedbig|current)_(stop|selfstop)', r'pool_w2_(coawait-runfn|runfnbig-detached)_stop',
                                  r'pool_w[12]_(coawait|runfn|detached)_racestop'], bound=2, workers=2, **R),
-                    vrt('C12', [r'sch_(thread|pool)_(5-10|10-5)(_cancel0)?', r'sch_start-remote_.*'], bound=2, workers=4, **R),
+                    vrt('C12', [r'sch_(thread|pool)_(5-10|10-5)(_cancel0)?', r'sch_start-remote_.*', r'sch_two-workers'], bound=2, workers=4, **R),
                     vrt('C16', [r'pub1_.*', r'pub2_all_(coro-block|coro-poll)_pub-batch2-close', r'pubmt1_.*', r'pubmt2_coro-coro', r'pubcopy_.*', r'pubbound_.*'], bound=2, workers=4, **R),
                     vrt('C17', [r'sf1_.*', r'sf2_promfn_val_(wait-coro|coro-drop|copydrop-poll)_.*'], bound=2, workers=2, **R),
                     vrt('C19', [r'mtsafe_t2_.*'], bound=2, workers=4, **R),
